@@ -516,8 +516,8 @@ pub fn run(ctx: &mut Ctx) {
     ];
     ctx.run_regressions::<BookModel>();
     ctx.run_regressions::<BookManager>();
-    ctx.run::<BookModel>(ctx.tier.pick(8_000, 300_000));
-    ctx.run::<BookManager>(ctx.tier.pick(2_000, 40_000));
+    ctx.run::<BookModel>(ctx.tier.pick(150_000, 2_500_000));
+    ctx.run::<BookManager>(ctx.tier.pick(40_000, 500_000));
     let max_len = ctx.tier.pick(3, 4) as usize;
     ctx.extra.insert("exhaustive_max_len".into(), serde_json::json!(max_len));
     ctx.run_enumerated::<BookModel>("exhaustive_small_scope", enumerate(max_len));
